@@ -3,7 +3,7 @@
 from __future__ import annotations
 
 from .. import gen
-from ..core import case_nprng
+from ..core import case_nprng, interleave
 from ..drivers import index as drv
 from ..drivers import program
 from ..oracles import inv
@@ -43,7 +43,7 @@ def run(rec, hub, tier, seed, shard, nshards, budget):
     inv.register(hub, PROPS)
     rec.require(program.MP13, 100)
     n_prog = 220 if tier == "quick" else 1500
-    work = [("program", i) for i in range(n_prog)] + [("whole", i) for i in range(40 if tier == "quick" else 200)]
+    work = interleave([("program", i) for i in range(n_prog)], [("whole", i) for i in range(40 if tier == "quick" else 200)])
     for w, (kind, i) in enumerate(work):
         if not budget.ok():
             break
